@@ -5,8 +5,9 @@ from harness import cons as H
 
 SPEC = {
     "gen": [],
-    "modules": ["DiffcalcProofs.Props.C10"],
-    "theorems": {"DiffcalcProofs.Props.C10": ["C10.inv_init", "C10.inv_set", "C10.inv_setBulk", "C10.inv_step", "C10.inv_history", "C10.c10_capacity", "C10.deactivate_exact", "C10.replace_policy", "C10.accept_free", "C10.set_ok_stored", "C10.readback_num", "C10.readback_true", "C10.set_error_unchanged", "C10.step_error_unchanged"]},
+    "modules": ["DiffcalcProofs.Props.C10", "DiffcalcProofs.Props.C10Bulk"],
+    "theorems": {"DiffcalcProofs.Props.C10": ["C10.inv_init", "C10.inv_set", "C10.inv_setBulk", "C10.inv_step", "C10.inv_history", "C10.c10_capacity", "C10.deactivate_exact", "C10.replace_policy", "C10.accept_free", "C10.set_ok_stored", "C10.readback_num", "C10.readback_true", "C10.set_error_unchanged", "C10.step_error_unchanged"],
+                 "DiffcalcProofs.Props.C10Bulk": ["C10.wt_step", "C10.wt_history", "C10.bulk_restrict", "C10.bulk_roundtrip"]},
     "level": "proof",
     "rule": "random operation histories over all 17 names x 9 value kinds (float, 0, int, numeric string, True, False, None, "
             "non-numeric string, list) incl. del / clear / bulk asdict / bulk astuple with unknown names; the model is stepped "
